@@ -287,11 +287,17 @@ def _check_axis_order(ctx: Ctx) -> None:
             return None
         if isinstance(e, ast.Call):
             f = norm(e.func)
-            if f in ('list', 'tuple', 'iter', 'reversed', 'enumerate') and len(e.args) == 1:
+            if f in ('list', 'tuple', 'iter', 'enumerate') and len(e.args) == 1:
                 return order_of(e.args[0], depth + 1)
             if f == 'sorted':
-                return 'sorted' if e.args and any(is_self_attr(a, en.self_name or 'self') == SET or order_of(a, depth + 1)
-                                                  for a in ast.walk(e.args[0])) else None
+                from_set = bool(e.args) and any(is_self_attr(a, en.self_name or 'self') == SET or order_of(a, depth + 1)
+                                                for a in ast.walk(e.args[0]))
+                if not from_set:
+                    return None
+                # the indexer uses plain ascending name order: a key= / reverse= makes it a different order
+                return 'sorted' if len(e.args) == 1 and not e.keywords else 'other'
+            if f == 'reversed' and len(e.args) == 1:
+                return 'other' if order_of(e.args[0], depth + 1) else None
             if f == 'set':
                 return 'set'
             if f == 'map' and len(e.args) == 2:
@@ -311,12 +317,20 @@ def _check_axis_order(ctx: Ctx) -> None:
     detail['product_arg'] = norm(prod[0].args[0])[:80]
     detail['axes_order_from'] = axes_order
     # the sequence that labels the components of one combination
-    comb_loops = [f for f in walk_no_nested(en.node) if isinstance(f, ast.For) and isinstance(f.target, ast.Name)
-                  and (f.iter is prod[0] or (isinstance(f.iter, ast.Name) and defs.get(f.iter.id) is prod[0]))]
+    def is_prod(e: ast.AST) -> bool:
+        return e is prod[0] or (isinstance(e, ast.Name) and defs.get(e.id) is prod[0])
+    comb_scopes: List = []           # (name of one combination, the node in which it is in scope)
+    for f in walk_no_nested(en.node):
+        if isinstance(f, ast.For) and isinstance(f.target, ast.Name) and is_prod(f.iter):
+            comb_scopes.append((f.target.id, f))
+        elif isinstance(f, (ast.ListComp, ast.GeneratorExp, ast.SetComp, ast.DictComp)):
+            for g in f.generators:
+                if isinstance(g.target, ast.Name) and is_prod(g.iter):
+                    comb_scopes.append((g.target.id, f))
     labels: List[ast.AST] = []
-    if len(comb_loops) == 1:
-        comb = comb_loops[0].target.id
-        for n in ast.walk(comb_loops[0]):
+    if len(comb_scopes) == 1:
+        comb, scope = comb_scopes[0]
+        for n in ast.walk(scope):
             if isinstance(n, ast.Call) and norm(n.func) == 'zip' and len(n.args) == 2 and norm(n.args[1]) == comb:
                 labels.append(n.args[0])
             if isinstance(n, ast.Assign) and isinstance(n.targets[0], ast.Subscript) and isinstance(n.value, ast.Subscript) \
@@ -328,7 +342,7 @@ def _check_axis_order(ctx: Ctx) -> None:
     label_order = order_of(labels[0])
     detail['labels'] = norm(labels[0])
     detail['labels_order_from'] = label_order
-    if (axes_order is None or label_order is None) and 'set' not in (axes_order, label_order):
+    if (axes_order is None or label_order is None) and not ({'set', 'other'} & {axes_order, label_order}):
         ctx.error('C05.e: cannot trace where the enumerator takes its axis order from: %s' % detail)
     oke = axes_order == 'sorted' and label_order == 'sorted'
     ctx.obligation('C05.e', 'enumerator', oke, detail)
